@@ -91,7 +91,9 @@ def case_st(draw):
             p["dx"] = {"op": draw(st.sampled_from([">", ">", "<"])), "k": draw(st.integers(1, case["levelmax"]))}
         # other groups named in the selection next to the mesh (before or after it)
         p["other"] = draw(st.sampled_from([None, None, None, ["part", False, "before"], ["part", False, "after"],
-                                           ["sink", False, "after"], ["part", {}, "before"]]))
+                                           ["sink", False, "after"], ["part", {}, "before"],
+                                           # a criterion on the particles' own level column: it concerns the particles only
+                                           ["part", "level_fn", "after"], ["part", "level_fn", "before"]]))
         # the files end after the records of level L: a loader that reads deeper than the cap runs off their end
         p["truncate"] = draw(st.integers(0, 2)) == 0
         preds.append(p)
@@ -136,6 +138,9 @@ def level_limited(case, r):
             select = {"mesh": sel}
             if spec.get("other"):
                 g, v, where = spec["other"]
+                if v == "level_fn":
+                    v = {"level": (lambda lp: lp <= 1)} if any(nm == "level" for nm, _ in m.part_desc) else {}
+                    r.label("other_group_has_a_level_criterion" if v else "select_names_other_group")
                 select = {g: v, "mesh": sel} if where == "before" else {"mesh": sel, g: v}
                 r.label("select_names_other_group")
             if res["pos"] and len(exp["level"]) and refined_at_L:
